@@ -49,10 +49,12 @@ def flatten(ir, t, v, prefix, delim='.', indices=None, out=None):
         if 'array' in inner or 'seq' in inner:
             raise NotExpressible('nested arrays have no flat notation')
         if 'prim' in inner or 'enum' in inner:
-            for x in v:
+            # either the key is repeated, or (indices.prims) the entries are numbered like those of an array of objects
+            numbered = getattr(indices, 'prims', False)
+            for i, x in zip(indices(len(v)), v):
                 if x is None:
                     raise NotExpressible('null array item')
-                out.append((prefix, leaf_text(inner, x)))      # repeated key
+                out.append(('%s[%d]' % (prefix, i) if numbered else prefix, leaf_text(inner, x)))
             return out
         if len(v) == 0:
             if 'array' in t:
